@@ -18,6 +18,7 @@ const (
 	GoO  = "go-o"
 	GoOU = "go-o-u"
 	TS   = "ts"
+	GoG  = "go-g" // default Go parser generated together with the automaton graph (-g)
 )
 
 var GoVariants = []string{Go, GoU, GoO, GoOU}
